@@ -415,6 +415,16 @@ type loopInfo struct {
 	invs   []*loopInv
 	body   map[*ssa.BasicBlock]bool
 	noBreak bool // contract: the loop is left only through its header test (every element is visited)
+	decr    []*loopDecr
+	decrPending []*loopDecr
+}
+
+// loopDecr: a measure that every iteration strictly decreases and that is non-negative whenever the body is entered
+// (direction of a scan, and termination of the loop).
+type loopDecr struct {
+	name string
+	eval func(phis map[*ssa.Phi]Value, st *State) *Term
+	old  *Term // value at the (arbitrary iteration) header
 }
 
 type loopInv struct {
@@ -545,6 +555,10 @@ func (e *Exec) loopHeader(fr *Frame, h *ssa.BasicBlock, st *State, fwd []edge, b
 	}
 	fr.loops[h] = li
 	li.body = body
+	for _, d := range li.decrPending {
+		d.old = e.def(SInt, d.eval(hv, st))
+		li.decr = append(li.decr, d)
+	}
 	if c != nil {
 		for _, k := range c.FullLoops {
 			if strings.Contains(li.key, k) || strings.Contains(loopKeyNamed(h), k) {
@@ -603,6 +617,10 @@ func (e *Exec) backEdge(fr *Frame, from, h *ssa.BasicBlock, st *State) {
 			break
 		}
 		vals[phi] = e.phiEdgeValue(fr, phi, h, from)
+	}
+	for _, d := range li.decr {
+		nv := d.eval(vals, st)
+		e.oblige(st, "variant", fr.path+li.key+":"+d.name, And(Lt(nv, d.old), Le(IntLit(0), d.old)), e.posOf(h.Instrs[0]))
 	}
 	for _, inv := range li.invs {
 		g := inv.eval(vals, st)
